@@ -2050,6 +2050,7 @@ func (c *HostClient) ReleaseConn(cc *clientConn) {
 	if c.MaxConnWaitTimeout <= 0 {
 		c.connsLock.Lock()
 		c.conns = append(c.conns, cc)
+		c.startConnsCleanerLocked()
 		c.connsLock.Unlock()
 		return
 	}
@@ -2079,6 +2080,18 @@ func (c *HostClient) ReleaseConn(cc *clientConn) {
 	}
 	if !delivered {
 		c.conns = append(c.conns, cc)
+		c.startConnsCleanerLocked()
+	}
+}
+
+// startConnsCleanerLocked makes sure that idle connections expire: the cleaner
+// is otherwise started only when AcquireConn creates a connection for a
+// keep-alive request, not for connections dialled for a waiting request.
+// connsLock must be held.
+func (c *HostClient) startConnsCleanerLocked() {
+	if !c.connsCleanerRun {
+		c.connsCleanerRun = true
+		go c.connsCleaner()
 	}
 }
 
